@@ -1314,3 +1314,115 @@ Proof.
   destruct (dac_chain_spec_concrete _ _ _ _ _ _ Hc Hb Hi (le_n _)) as [-> _].
   split; discriminate.
 Qed.
+
+(* ========================================================================= *)
+(* 11. the order of the stores does not matter (the DAC constructor fills the    *)
+(*     level array sequence by sequence, i.e. level-interleaved)                 *)
+(* ========================================================================= *)
+From Coq Require Import Permutation.
+
+Lemma set_fields32_bits : forall ops A len n,
+  arr32 A -> len <= 32 -> n * len <= 32 * lenN A ->
+  (forall q v, In (q, v) ops -> q < n /\ v < 2 ^ len) -> NoDup (map fst ops) ->
+  exists A', set_fields32 A len ops = Some A' /\ arr32 A' /\ lenN A' = lenN A /\
+    (forall q v t, In (q, v) ops -> t < len -> wbit32 A' (q * len + t) = N.testbit v t) /\
+    (forall k, (forall q v, In (q, v) ops -> k < q * len \/ q * len + len <= k) -> wbit32 A' k = wbit32 A k).
+Proof.
+  induction ops as [|[q0 v0] r IH]; intros A len n HA Hlen Hin Hops Hnd; cbn [set_fields32].
+  - exists A. split; [reflexivity|]. split; [exact HA|]. split; [reflexivity|]. split.
+    + intros q v t [].
+    + reflexivity.
+  - destruct (Hops q0 v0 (or_introl eq_refl)) as [Hq0 Hv0].
+    cbn [map fst] in Hnd. inversion Hnd as [|? ? Hnotin Hnd']; subst.
+    assert (Hin0 : in_range32 A len q0) by (unfold in_range32; nia).
+    destruct (set_field32_bits A len q0 v0 HA Hlen Hin0 Hv0) as (A1 & Hs1 & HA1 & Hl1 & Hb1). rewrite Hs1.
+    destruct (IH A1 len n HA1 Hlen ltac:(rewrite Hl1; exact Hin) (fun q v H => Hops q v (or_intror H)) Hnd')
+      as (A' & Hs' & HA' & Hl' & Hb' & Hf').
+    assert (Hdisj : forall q v, In (q, v) r -> q <> q0).
+    { intros q v Hqv ->. apply Hnotin. apply (in_map fst) in Hqv. exact Hqv. }
+    exists A'. split; [exact Hs'|]. split; [exact HA'|]. split; [congruence|]. split.
+    + intros q v t [E|Hr] Ht.
+      * injection E as <- <-. rewrite Hf'.
+        -- rewrite Hb1. destruct (N.leb_spec (q0 * len) (q0 * len + t)); [|lia].
+           destruct (N.ltb_spec (q0 * len + t) (q0 * len + len)); [|lia]. cbn [andb]. f_equal. lia.
+        -- intros q' v' H'. pose proof (Hdisj _ _ H'). nia.
+      * apply Hb'; assumption.
+    + intros k Hk. rewrite Hf' by (intros q v H; apply (Hk q v); right; exact H). rewrite Hb1.
+      destruct (Hk q0 v0 (or_introl eq_refl)).
+      * destruct (N.leb_spec (q0 * len) k); [lia|reflexivity].
+      * destruct (N.ltb_spec k (q0 * len + len)); [lia|]. rewrite andb_false_r. reflexivity.
+Qed.
+
+Lemma in_combine_idx : forall (vs : list N) a q v,
+  In (q, v) (combine (map N.of_nat (seq a (length vs))) vs) <->
+  exists k, (k < length vs)%nat /\ q = N.of_nat (a + k) /\ v = nth k vs 0.
+Proof.
+  induction vs as [|x r IH]; intros a q v; cbn [length seq map combine].
+  - split; [intros []|intros (k & Hk & _); inversion Hk].
+  - split.
+    + intros [E|H].
+      * injection E as <- <-. exists O. split; [cbn; lia|]. split; [f_equal; lia|reflexivity].
+      * apply IH in H. destruct H as (k & Hk & -> & ->). exists (S k). cbn [length nth]. split; [lia|]. split; [f_equal; lia|reflexivity].
+    + intros (k & Hk & -> & ->). destruct k as [|k].
+      * left. f_equal. f_equal. lia.
+      * right. apply IH. exists k. cbn [length] in Hk. split; [lia|]. split; [f_equal; lia|reflexivity].
+Qed.
+
+Lemma map_fst_combine_idx (vs : list N) a :
+  map fst (combine (map N.of_nat (seq a (length vs))) vs) = map N.of_nat (seq a (length vs)).
+Proof.
+  revert a; induction vs as [|x r IH]; intros a; cbn [length seq map combine fst]; [reflexivity|].
+  f_equal. apply IH.
+Qed.
+
+(* any order of the n stores (each field written once) gives the array pack32w gives *)
+Theorem set_fields32_any_order nw len vs ops :
+  len <= 32 -> Forall (fun v => v < 2 ^ len) vs -> lenN vs * len <= 32 * nw -> nw < 2 ^ 59 ->
+  Permutation ops (combine (map N.of_nat (seq 0 (length vs))) vs) ->
+  set_fields32 (repeat 0 (N.to_nat nw)) len ops = pack32w nw len vs.
+Proof.
+  intros Hlen Hvs Hin Hnw Hperm.
+  assert (H0 : arr32 (repeat 0 (N.to_nat nw))) by (apply arr32_repeat0; lia).
+  assert (Hmem : forall q v, In (q, v) ops <-> q < lenN vs /\ v = nth (N.to_nat q) vs 0).
+  { intros q v. split.
+    - intros H. apply (Permutation_in _ Hperm), in_combine_idx in H. destruct H as (k & Hk & -> & ->).
+      unfold lenN. split; [lia|]. f_equal. lia.
+    - intros [Hq ->]. apply (Permutation_in _ (Permutation_sym Hperm)), in_combine_idx.
+      exists (N.to_nat q). unfold lenN in Hq. split; [lia|]. split; [lia|reflexivity]. }
+  assert (Hnd : NoDup (map fst ops)).
+  { apply (Permutation_NoDup (Permutation_sym (Permutation_map fst Hperm))).
+    rewrite map_fst_combine_idx. apply FinFun.Injective_map_NoDup; [intros x y; lia|apply seq_NoDup]. }
+  destruct (set_fields32_bits ops (repeat 0 (N.to_nat nw)) len (lenN vs) H0 Hlen) as (A' & HA' & Harr' & Hl' & Hb' & Hf').
+  { rewrite lenN_repeat. lia. }
+  { intros q v H. apply Hmem in H. destruct H as [Hq ->]. split; [exact Hq|]. apply nth_lt_pow2. exact Hvs. }
+  { exact Hnd. }
+  destruct (pack32w_spec nw len vs Hlen Hvs Hin Hnw) as (B & HB & Hbarr & Hbl & _ & Hbb & Hbz).
+  rewrite HA', HB. f_equal. apply wbit32_ext.
+  - apply Harr'.
+  - apply Hbarr.
+  - rewrite lenN_repeat in Hl'. unfold lenN in *. lia.
+  - intros k. destruct (N.lt_ge_cases k (lenN vs * len)) as [Hk|Hk].
+    + assert (Hl0 : len <> 0) by (intros ->; lia).
+      pose proof (N.div_mod' k len) as Hd. pose proof (N.mod_lt k len Hl0) as Hm.
+      assert (Hq : k / len < lenN vs) by (apply N.div_lt_upper_bound; lia).
+      replace k with (k / len * len + k mod len) by lia.
+      rewrite (Hb' (k / len) (nth (N.to_nat (k / len)) vs 0)) by (try apply Hmem; auto).
+      rewrite Hbb by assumption. reflexivity.
+    + rewrite Hbz by exact Hk. rewrite Hf'; [apply wbit32_repeat0|].
+      intros q v H. apply Hmem in H. destruct H as [Hq _]. right. nia.
+Qed.
+
+(* ========================================================================= *)
+(* 12. why [v < 2^len] is a hypothesis: set_field does not mask its argument     *)
+(*     (x << j and x >> (W - j) are OR-ed in whole), so a larger value spills     *)
+(*     into the following fields.  Witness replayed on the implementation:        *)
+(*     f32_new 5 4 / f32_set 0 63 / f32_get 1  ->  1.                             *)
+(* ========================================================================= *)
+Example cds32_set_unmasked_spills :
+  exists A v A', arr32 A /\ in_range32 A 5 0 /\ in_range32 A 5 1 /\ ~ v < 2 ^ 5 /\
+    set_field32 A 5 0 v = Some A' /\ get_field32 A 5 1 = Some 0 /\ get_field32 A' 5 1 = Some 1.
+Proof.
+  exists [0], 63, [63]. split; [split; [repeat constructor|vm_compute; reflexivity]|].
+  split; [vm_compute; discriminate|]. split; [vm_compute; discriminate|].
+  split; [vm_compute; discriminate|]. repeat split; vm_compute; reflexivity.
+Qed.
